@@ -271,3 +271,53 @@ Theorem C05_bridge_call_refund_of_external_erc20_impossible_refuted :
   snd (step e_state (Observe 1002)) = Ok.
 Proof. exact erc20_call_refund_impossible. Qed.
 Print Assumptions C05_bridge_call_refund_of_external_erc20_impossible_refuted.
+
+(* ---- settled EXACTLY once, over histories ---- *)
+From FxV Require Import proofs.P_C05h.
+
+(* [settle_count s ops id] counts the steps of the history [ops] in which transfer [id] goes from live (pool or a batch) to not
+   live. By C05_settlement_has_its_event each such step carries exactly the settlement event (the creator's refund, or the
+   execution of its batch). An id that is not yet settled at the start is settled exactly once if it is settled at the end and
+   never otherwise; one that is settled already is never settled again. (Settlement on fxcore. Whether the EXTERNAL chain has
+   also executed a bridge call that fxcore refunds is C06: excluded for batches, and for bridge calls only under the guard of
+   C06_no_double_spend_bridgecall_guarded — finding C06-1; and a bridge call whose refund cannot be paid is never settled at
+   all — finding C05-3.) *)
+Theorem C05_settled_exactly_once : forall ops s id, reachable s ->
+  settle_count s ops id = (if settledb s id then O else if settledb (run s ops) id then 1%nat else O).
+Proof. intros ops s id R; apply settled_exactly_once, reachable_inv, R. Qed.
+Print Assumptions C05_settled_exactly_once.
+
+Theorem C05_settled_at_most_once : forall ops s id, reachable s -> (settle_count s ops id <= 1)%nat.
+Proof. intros ops s id R; apply settled_at_most_once, reachable_inv, R. Qed.
+Print Assumptions C05_settled_at_most_once.
+
+Theorem C05_settlement_has_its_event : forall s o s' evs id, reachable s -> accepted s o s' evs -> is_live s id -> ~ is_live s' id ->
+  (exists x, In x (pool s) /\ tx_id x = id /\ o = Cancel id (tx_sender x) /\
+             evs = [EvTxRefund id (tx_sender x) (tx_amount x + tx_fee x) (tx_token x)]) \/
+  (exists h b, o = BatchExecuted (b_token b) (b_nonce b) h /\ In b (batches s) /\ In id (ids (b_txs b)) /\
+               In (EvBatchExecuted (b_token b) (b_nonce b)) evs).
+Proof. intros s o s' evs id R; apply settlement_has_its_event, reachable_inv, R. Qed.
+Print Assumptions C05_settlement_has_its_event.
+
+Theorem C05_call_settled_at_most_once : forall ops s n, reachable s -> (call_settle_count s ops n <= 1)%nat.
+Proof. intros ops s n R; apply call_settled_at_most_once, reachable_inv, R. Qed.
+Print Assumptions C05_call_settled_at_most_once.
+
+(* ---- histories that CONTAIN a genesis export/import of the module ---- *)
+(* guard needed because of finding C05-2: the import re-derives the counters from the imported records ([LImportPatched]);
+   with the import as the code does it the statements are false — C05_ids_across_genesis_export_import_refuted, whose
+   witness is evaluated in the model and replayed on the real application (corpus/C05/C05-2.json) *)
+Theorem C05_reachable_invariant_with_patched_import : forall s, lreachable s -> Inv s.
+Proof. exact lreachable_inv. Qed.
+Print Assumptions C05_reachable_invariant_with_patched_import.
+
+Theorem C05_exactly_one_place_with_patched_import : forall s id p q, lreachable s -> at_place s id p -> at_place s id q -> p = q.
+Proof. intros s id p q R; apply exactly_one_place, lreachable_inv, R. Qed.
+Print Assumptions C05_exactly_one_place_with_patched_import.
+
+Theorem C05_fresh_ids_with_patched_import : forall s o, lreachable s -> forall x, In x (live (step_state s o)) ->
+  (exists y, In y (live s) /\ tx_id y = tx_id x) \/
+  (tx_id x = next_tx s /\ next_tx (step_state s o) = next_tx s + 1 /\ (forall y, In y (live s) -> tx_id y < tx_id x)
+   /\ exists sender dest amount fee token, is_send o sender dest amount fee token).
+Proof. intros s o R; apply fresh_ids, lreachable_inv, R. Qed.
+Print Assumptions C05_fresh_ids_with_patched_import.
